@@ -10,6 +10,7 @@ package ipoe
 //	x <key> <proto> <sid>                           Registry.Claim by another party   -> nil | o:...
 //	y <key> <proto> <sid>                           Registry.Release by another party -> ok
 //	l <key>                                         Registry.Lookup -> nil | o:...
+//	Z <svlan> <cvlan> <machex|-> <sidhex> <mixed>   claim+release on a component with exclusivity == nil -> ev[]
 import (
 	"bufio"
 	"encoding/hex"
@@ -33,6 +34,8 @@ func (b *c17Bus) Publish(topic string, ev events.Event) {
 		b.evs = append(b.evs, "WRONGTOPIC")
 	case !ok || d.Key == nil:
 		b.evs = append(b.evs, "WRONGDATA")
+	case ev.Source != "ipoe" || d.Reason != "evicted by cross-protocol claim":
+		b.evs = append(b.evs, "WRONGSOURCE-OR-REASON")
 	default:
 		b.evs = append(b.evs, c17Hex(d.SessionID)+"@"+c17ShowKey(*d.Key))
 	}
@@ -89,6 +92,7 @@ func c17Run(f []string) (out string) {
 	reg := session.NewRegistry()
 	bus := &c17Bus{}
 	c := &Component{exclusivity: reg, eventBus: bus}
+	cz := &Component{eventBus: bus}
 	var res []string
 	for p := 1; p < len(f); {
 		switch f[p] {
@@ -108,6 +112,20 @@ func c17Run(f []string) (out string) {
 				c.releaseTuple(sess)
 				res = append(res, "ok")
 			}
+			p += 6
+		case "Z":
+			// the same call on a component built without a registry (exclusivity == nil): nothing may happen
+			s, _ := strconv.Atoi(f[p+1])
+			cv, _ := strconv.Atoi(f[p+2])
+			var mac net.HardwareAddr
+			if f[p+3] != "-" {
+				mac, _ = hex.DecodeString(f[p+3])
+			}
+			zsess := &SessionState{OuterVLAN: uint16(s), InnerVLAN: uint16(cv), MAC: mac, SessionID: c17Str(f[p+4]), MixedAccess: f[p+5] == "1"}
+			bus.evs = nil
+			cz.claimTuple(zsess)
+			cz.releaseTuple(zsess)
+			res = append(res, "ev["+strings.Join(bus.evs, ",")+"]")
 			p += 6
 		case "x":
 			k := c17Key(f[p+1])
